@@ -23,7 +23,7 @@ import ast, concurrent.futures as cf, copy, json, os, random, shutil, subprocess
 
 VERIF = os.path.dirname(os.path.dirname(os.path.abspath(__file__)))
 REPO = os.environ.get("VERIF_REPO", "/repo")
-OUT = os.path.join(VERIF, "mutation")
+OUT = os.environ.get("VERIF_MUT_DIR", os.path.join(VERIF, "mutation"))
 FILES = ["core/fiber.py", "core/iterators.py", "core/tensor.py", "core/rank.py",
          "core/rank_attrs.py", "core/payload.py", "core/coord_payload.py",
          "core/metrics.py", "model/traffic.py", "model/format.py",
